@@ -224,6 +224,7 @@ def run(chk, prog, tier):
                                     % (k[1], fld, eff.chain(parent, r))))
     chk.rule('C19.opaque-token', 'no header/claim API callable from a callback writes jwt->alg / jwt->key', n, b, floor=6)
     chk.sample({'tainted_at_callback': ['*jwt->claims', '*jwt->headers'], 'allowed_after_callback': list(RELEASE)})
+    H.require_reached(H.VERIFY_PRIMS + H.HMAC_PRIMS, 'C19')
     return chk.finish(
         'Taint typestate on every path of jwt_checker_verify with a callback (both providers): the JSON trees reachable from the token '
         'object at the time of the callback are callback-mutable; afterwards any library query, read or write through them is a violation '
